@@ -172,7 +172,7 @@ def rat_search(chk, theorem, binary, index, idx_deps, trials=80):
 def gen_defs():
     """{function name: definition text} of the C09 Gen modules currently installed"""
     out = {}
-    for mod in ("C09Mat", "C09Frame", "C09Up"):
+    for mod in ("C09Mat", "C09Frame", "C09Next", "C09Quat", "C09Up"):
         p = os.path.join(troute.GEN, mod + ".lean")
         if not os.path.exists(p):
             continue
